@@ -12,6 +12,7 @@ from vt import sym
 from vt.props._recv import BaseOnly, InlineExecutor, Lab, ackable, encode, make_broker, make_middleware
 
 OUTCOMES = ("return", "raise_exc", "raise_base", "no_result", "cancelled", "timeout")
+EXTRA_OUTCOMES = ("raise_system_exit",)  # used by C07 only
 ACKS = ("when_received", "when_executed", "when_saved")
 
 
@@ -45,7 +46,12 @@ def run(c: sym.Ctx, spec: Dict[str, Any], n_msgs: int = 1) -> Lab:
     bfail = [pick(c, spec, f"backend_fail{i}", (False, True)) for i in range(n_msgs)]
     deps = spec.get("deps", "none")
     propagate = spec.get("propagate", True)
-    failing = {f"id{i}" for i in range(n_msgs) if bfail[i]}
+    same_id = bool(spec.get("same_id"))
+
+    def tid_of(i: int) -> str:
+        return "id0" if same_id else f"id{i}"
+
+    failing = {tid_of(i) for i in range(n_msgs) if bfail[i]}
     broker = make_broker(lab, backend_fail=lambda tid: tid in failing, backend_gate=spec.get("backend_gate", n_msgs > 1))
     for k, hooks in enumerate(spec.get("mws", [])):
         broker.add_middlewares(make_middleware(lab, k, hooks, replace_message=spec.get("replace", False),
@@ -66,6 +72,8 @@ def run(c: sym.Ctx, spec: Dict[str, Any], n_msgs: int = 1) -> Lab:
             raise NoResultError()
         if o == "cancelled":
             raise asyncio.CancelledError()
+        if o == "raise_system_exit":
+            raise SystemExit(3)
         raise AssertionError(o)
 
     # ---- dependencies (C12)
@@ -189,7 +197,7 @@ def run(c: sym.Ctx, spec: Dict[str, Any], n_msgs: int = 1) -> Lab:
         labels: Dict[str, Any] = {"user": f"L{i}"}
         if tl[i]:
             labels["timeout"] = 5
-        data = encode(broker, "t", f"id{i}", [i], labels)
+        data = encode(broker, "t", tid_of(i), [i], labels)
         msgs.append(ackable(lab, i, data, async_ack, gate_ack=n_msgs > 1) if spec.get("ackable", True) else data)
 
     async def main() -> None:
@@ -200,7 +208,11 @@ def run(c: sym.Ctx, spec: Dict[str, Any], n_msgs: int = 1) -> Lab:
 
     mt = lab.loop.create_task(main())
     try:
-        lab.drive(mt)
+        try:
+            lab.drive(mt)
+        except (SystemExit, KeyboardInterrupt, GeneratorExit) as exc:
+            # an exception class that asyncio re-raises through the event loop: the worker's loop would be torn down
+            lab.rec("loop_aborted", type(exc).__name__)
     finally:
         lab.main_done = mt.done()  # type: ignore[attr-defined]
         lab.close()
